@@ -30,7 +30,10 @@ ResByIss == [kind |-> "byiss", map |-> [i \in {"i1", "i2"} |-> IF i = "i1" THEN 
 AllRes == [c1 |-> ResConst("K1"), c2 |-> ResConst("K2"), ce |-> ResConst("KE1"), cs |-> ResConst("S1"), byiss |-> ResByIss]
 AN == [none |-> [aud |-> NONE, nonce |-> NONE], ok |-> [aud |-> JStr("aud1"), nonce |-> JStr("n1")],
        aud2 |-> [aud |-> JStr("aud2"), nonce |-> JStr("n1")], n2 |-> [aud |-> JStr("aud1"), nonce |-> JStr("n2")],
-       onlyaud |-> [aud |-> JStr("aud1"), nonce |-> NONE], onlynonce |-> [aud |-> NONE, nonce |-> JStr("n1")]]
+       onlyaud |-> [aud |-> JStr("aud1"), nonce |-> NONE], onlynonce |-> [aud |-> NONE, nonce |-> JStr("n1")],
+       \* expectations that are a prefix / an extension of what the holder's KB-JWT names
+       npre |-> [aud |-> JStr("aud1"), nonce |-> JStr("n")], next |-> [aud |-> JStr("aud1"), nonce |-> JStr("n11")],
+       apre |-> [aud |-> JStr("aud"), nonce |-> JStr("n1")], aext |-> [aud |-> JStr("aud1/"), nonce |-> JStr("n1")]]
 VArgs == {[res |-> AllRes[r], aud |-> AN[x].aud, nonce |-> AN[x].nonce] : r \in ResSet, x \in AudNonceSet}
 Fam == [k \in {"K1", "K2", "H1", "H2"} |-> "EC"] @@ [k \in {"KE1", "KE2", "HE1", "HE2"} |-> "ED"] @@ [k \in {"S1", "S2", "pub-as-hmac"} |-> "HMAC"]
 \* forged and garbage disclosures
